@@ -7,7 +7,7 @@ import asynq
 from asynq import futures as F
 from vlib.spec import Cond, I, B
 from vlib import rec
-from harness.fam import conc
+from harness.fam import conc, concb
 from harness import prog
 
 ENC = ["asynq/futures.py: FutureBase.value/error/__call__/is_computed/set_value/set_error/reset_unsafe/"
@@ -285,19 +285,127 @@ def mk(L):
     return f
 
 
+def f_ext(how, cleanup, subs, when, again, v):
+    """A task is completed from outside (set_value / set_error by another task) while its generator is suspended
+    at a yield - with a clean-up (finally) that may raise when the generator is closed: subscribers are still
+    notified exactly once with the outcome visible, the outcome stays what was set, a later set raises."""
+    hw, cl, sb, wn, ag = conc(how, 2), concb(cleanup), conc(subs, 3), conc(when, 2), conc(again, 3)
+    rec.clear_fail()
+    prog.reset_globals()
+    _B.cur[0] = None
+    import traceback as _tb
+    saved_print_exc = _tb.print_exc
+    _tb.print_exc = lambda *a, **k: None
+    sink = io.StringIO()
+    notes = []
+    err = prog.E("set from outside")
+    state = {"set_raised": None, "again": None}
+    try:
+        @asynq.asynq()
+        def victim():
+            try:
+                x = yield _It(v, False, None)
+                return x
+            finally:
+                if cl:
+                    raise RuntimeError("clean-up fails")
+
+        def mk_cb(sid, raising):
+            def cb(fu):
+                notes.append((sid, fu.is_computed(), fu._value, fu._error))
+                if raising:
+                    raise ValueError("subscriber fails")
+            return cb
+
+        def complete(t):
+            try:
+                if hw == 0:
+                    t.set_value(v + 1)
+                else:
+                    t.set_error(err)
+            except RuntimeError as e:
+                state["set_raised"] = e       # the clean-up error may surface here (statement is silent)
+            if ag:
+                try:
+                    if ag == 1:
+                        t.set_value(v + 2)
+                    else:
+                        t.set_error(prog.E("second"))
+                    state["again"] = "accepted"
+                except F.FutureIsAlreadyComputed:
+                    state["again"] = "FIAC"
+
+        @asynq.asynq()
+        def killer(t):
+            complete(t)
+            return 1
+
+        @asynq.asynq()
+        def root(t):
+            try:
+                yield [t, killer.asynq(t)]
+            except Exception as e:
+                prog.reraise_control(e)
+            return 1
+
+        with contextlib.redirect_stdout(sink), contextlib.redirect_stderr(sink):
+            t = victim.asynq()
+            t.on_computed.subscribe(mk_cb(1, sb == 1))
+            t.on_computed.subscribe(mk_cb(2, sb == 2))
+            if wn == 1:
+                complete(t)             # before the task ever started
+            else:
+                root(t)
+        desc = "task completed from outside by %s %s, clean-up %s, subscribers %d, second set %d" % (
+            "set_value" if hw == 0 else "set_error", "before start" if wn else "while suspended on a batch item",
+            "raises" if cl else "ok", sb, ag)
+        if not t.is_computed():
+            return rec.fail(desc + ": task is not computed")
+        if sorted(n[0] for n in notes) != [1, 2]:
+            return rec.fail(desc + ": subscribers notified %r, expected each exactly once" % ([n[0] for n in notes],))
+        for sid, comp, val, er in notes:
+            if not comp:
+                return rec.fail(desc + ": subscriber %d notified before the outcome was visible" % sid)
+        if ag and state["again"] != "FIAC":
+            return rec.fail(desc + ": a second set on the completed task was %r" % (state["again"],))
+        if hw == 0:
+            if t.error() is not None or t.value() != v + 1 or t() != v + 1:
+                return rec.fail(desc + ": outcome is not the value that was set")
+        else:
+            if t.error() is not err:
+                return rec.fail(desc + ": error() is %r, not the error that was set" % (t.error(),))
+            for call in (t.value, t):
+                try:
+                    call()
+                    return rec.fail(desc + ": value()/call did not raise the error that was set")
+                except prog.E as e:
+                    if e is not err:
+                        return rec.fail(desc + ": raised another error object")
+        rec.wit("paths")
+        rec.done(("c10ext", hw, cl, sb, wn, ag), True)
+        return True
+    finally:
+        _tb.print_exc = saved_print_exc
+        prog.reset_globals()
+
+
 def params(L, kmax=7):
     return [I("kind", 0, kmax)] + [I("o%d" % i, 0, NOPS - 1) for i in range(L)] + [I("v%d" % i) for i in range(L)] + [I("pv")]
 
 
 def conds(tier):
     q = tier == "quick"
+    ext = Cond("external", f_ext, [I("how", 0, 1), B("cleanup"), I("subs", 0, 2), I("when", 0, 1), I("again", 0, 2), I("v")],
+               pin=1, builds=("C", "P"), budget=100,
+               family="a task completed from outside while suspended at a yield (clean-up may raise), subscribers "
+                      "good/raising, second set", encodes=ENC)
     if q:
-        return [Cond("hist3", mk(3), params(3), pin=2, builds=("C", "P"), budget=300,
+        return [ext, Cond("hist3", mk(3), params(3), pin=2, builds=("C", "P"), budget=300,
                      family="future API histories of length 3 x 8 future kinds", encodes=ENC),
                 Cond("hist4", mk(4), params(4, 1), pin=3, builds=("C",), budget=300,
                      family="future API histories of length 4 x lazy Future (returning/raising provider)",
                      encodes=ENC)]
-    return [Cond("hist4", mk(4), params(4), pin=3, builds=("C", "P"), budget=1500,
+    return [ext, Cond("hist4", mk(4), params(4), pin=3, builds=("C", "P"), budget=1500,
                  family="future API histories of length 4 x 8 future kinds", encodes=ENC),
             Cond("hist5", mk(5), params(5, 1), pin=3, builds=("C",), budget=1800,
                  family="future API histories of length 5 x lazy Future", encodes=ENC)]
